@@ -68,7 +68,7 @@ class RigLoop(VirtualTimeLoop):
 class Rig:
     """one listener under test + the line writer"""
 
-    def __init__(self, loop: RigLoop, cbs: str = "both") -> None:
+    def __init__(self, loop: RigLoop, cbs: str = "both", target: Optional[List[Any]] = None) -> None:
         from async_upnp_client import advertisement, search, ssdp, ssdp_listener
         from async_upnp_client.ssdp_listener import SsdpDeviceTracker, SsdpListener
 
@@ -103,8 +103,19 @@ class Rig:
         self.tracker = SsdpDeviceTracker()
         kw = {"both": dict(async_callback=self._acb, callback=self._cb), "sync": dict(callback=self._cb),
               "async": dict(async_callback=self._acb)}[cbs]
+        if target is not None:
+            kw["target"] = tuple(target)   # unicast mode of the search listener (set up by the real async_start)
         self.listener = SsdpListener(device_tracker=self.tracker, loop=loop, **kw)
         self.lines.append(f"mode {cbs}")
+        # the filter host the harness EXPECTS for this configuration (its own reading of the configuration, not
+        # the listener's attribute): none for the multicast default, else the target's ip, with %scope when scoped
+        if target is None:
+            self.lines.append("target -")
+        else:
+            host = target[0] if len(target) < 4 or not target[3] else f"{target[0]}%{target[3]}"
+            self.lines.append(f"target {self.sid(host)}")
+        self.tags.add("target:" + ("multicast" if target is None else "unicast4" if len(target) == 2 else
+                                   "unicast6-scoped" if target[3] else "unicast6"))
         self.tags.add(f"cbs:{cbs}")
         self.captured: Optional[Tuple] = None
 
@@ -233,13 +244,13 @@ def build_packet(first_line: str, headers: List[List[str]]) -> bytes:
     return (first_line + "\r\n" + "".join(f"{k}:{v}\r\n" for k, v in headers) + "\r\n").encode()
 
 
-def run_ops(ops: List[Any], cbs: str = "both") -> Tuple[List[str], List[str]]:
+def run_ops(ops: List[Any], cbs: str = "both", target: Optional[List[Any]] = None) -> Tuple[List[str], List[str]]:
     """run one history on a fresh listener; returns (lines, tags)"""
     loop = RigLoop()
     asyncio.set_event_loop(loop)
     rig = None
     try:
-        rig = Rig(loop, cbs)
+        rig = Rig(loop, cbs, target)
 
         async def go():
             await rig.start()
@@ -280,7 +291,7 @@ def op_kind(op) -> str:
 
 
 def run_recipe(ctx: Optional[Ctx], recipe: Dict[str, Any], cid: str) -> Case:
-    lines, tags = run_ops(recipe["ops"], recipe.get("cbs", "both"))
+    lines, tags = run_ops(recipe["ops"], recipe.get("cbs", "both"), recipe.get("target"))
     nontrivial = any(ln.startswith("cb ") for ln in lines) and sum(1 for ln in lines if ln.startswith("snap ")) >= 2
     return Case(cid, lines, recipe, nontrivial, tags)
 
@@ -294,6 +305,16 @@ ADDR4 = ["192.168.1.10", 1900]
 ADDR4B = ["192.168.1.11", 1900]
 ADDR6 = ["2001:db8::10", 1900, 0, 0]
 ADDR6LL = ["fe80::1", 1900, 0, 3]
+ADDR6LL_OTHER_SCOPE = ["fe80::1", 1900, 0, 4]    # the same address through another interface
+ADDR4_OTHER_PORT = ["192.168.1.10", 50000]        # the same host, another source port
+# configurations of the search listener: multicast default, unicast IPv4, unicast IPv6 unscoped, unicast IPv6 link-local
+TARGETS = [None, ["192.168.1.10", 1900], ["2001:db8::10", 1900, 0, 0], ["fe80::1", 1900, 0, 3]]
+
+
+def rand_target(rng):
+    return None if rng.random() < 0.6 else rng.choice(TARGETS[1:])
+
+
 GOOD_LOCS = [
     ("http://192.168.1.10:80/desc.xml", ADDR4),
     ("http://192.168.1.11:8080/desc.xml", ADDR4B),
@@ -382,6 +403,8 @@ def rand_valid(rng, ts, udns=UDNS, types=TYPES):
     if rng.random() < 0.04:
         cache = rng.choice(HUGE)
     extra = rng.choice(EXTRA[:7]) if rng.random() < 0.7 else rng.choice(EXTRA)
+    if rng.random() < 0.12:
+        addr = {tuple(ADDR6LL): ADDR6LL_OTHER_SCOPE, tuple(ADDR4): ADDR4_OTHER_PORT}.get(tuple(addr), addr)
     c = rng.randrange(10)
     if c < 4:
         return mk_search(ts, udn, ty, loc, addr, cache, extra)
@@ -610,6 +633,21 @@ CORPUS += [
              mk_search(4 * SEC, UDNS[1], TYPES[0], "http://192.168.1.10:80/desc.xml", ADDR4, "max-age=1800", []),
              mk_search(5 * SEC, UDNS[1], TYPES[0], "http://[::ffff:10.2.3.4]/", ADDR6, "max-age=1800", []),
              mk_search(6 * SEC, UDNS[1], TYPES[0], "http://u:p@192.168.1.12:80/x", ADDR4, "max-age=1800", [])]},
+    # unicast search listener (regression batch 3): scoped IPv6 target; responses from the target host, from the same address
+    # with another scope, from another host; advertisements are not filtered
+    {"target": ["fe80::1", 1900, 0, 3],
+     "ops": [mk_search(0, UDNS[0], TYPES[0], "http://[fe80::1]:80/desc.xml", ADDR6LL, "max-age=1800", []),
+             mk_search(1 * SEC, UDNS[1], TYPES[0], "http://[fe80::1]:80/desc.xml", ADDR6LL_OTHER_SCOPE, "max-age=1800", []),
+             mk_search(2 * SEC, UDNS[2], TYPES[0], *GOOD_LOCS[0], "max-age=1800", []),
+             mk_notify(3 * SEC, "ssdp:alive", UDNS[3], TYPES[0], *GOOD_LOCS[1], "max-age=1800", []),
+             mk_search(4 * SEC, UDNS[0], TYPES[0], "http://[fe80::1]:80/desc.xml", ADDR6LL, "max-age=1800", []), ["purge", 5 * SEC]]},
+    {"target": ["192.168.1.10", 1900],
+     "ops": [mk_search(0, UDNS[0], TYPES[0], GOOD_LOCS[0][0], ADDR4_OTHER_PORT, "max-age=5", []),
+             mk_search(1 * SEC, UDNS[1], TYPES[0], *GOOD_LOCS[1], "max-age=5", []),
+             mk_search(2 * SEC, UDNS[0], TYPES[0], *GOOD_LOCS[0], "max-age=5", [["BOOTID.UPNP.ORG", "2"]])]},
+    {"target": ["2001:db8::10", 1900, 0, 0],
+     "ops": [mk_search(0, UDNS[0], TYPES[0], *GOOD_LOCS[2], "max-age=5", []),
+             mk_search(1 * SEC, UDNS[1], TYPES[0], *GOOD_LOCS[3], "max-age=5", [])]},
     # timestamps at datetime.min, equal and backwards
     {"ops": [mk_search(TMIN, UDNS[0], TYPES[0], *GOOD_LOCS[0], "max-age=5", []),
              mk_search(TMIN, UDNS[1], TYPES[0], *GOOD_LOCS[1], None, []),
